@@ -52,6 +52,26 @@ def global_entries():
         text = ("$c = comdat any\n\n$g = comdat any\n\n@g = %s%s%s%s%s%s%s%sglobal i32 0%s%s%s%s%s\n" %
                 (g("linkage"), g("preempt"), g("vis"), g("dll"), g("tls"), g("uaddr"), g("as"), g("extinit"), g("section"), g("partition"), g("comdat"), g("align"), g("md"))) + MD
         out.append(("clause.global." + label, text, _frags(sel)))
+        if "linkage" not in sel and "comdat" not in sel:
+            # the same clauses on a DECLARATION (no initialiser)
+            for ext in ("external", "extern_weak"):
+                text = ("@g = %s %s%s%s%s%s%s%sglobal i32%s%s%s%s\n" %
+                        (ext, g("preempt"), g("vis"), g("dll"), g("tls"), g("uaddr"), g("as"), g("extinit"), g("section"), g("partition"), g("align"), g("md"))) + MD
+                out.append(("clause.global-decl.%s.%s" % (ext, label), text, _frags(sel) + [ext + " "]))
+    return out
+
+
+SYM_SLOTS = [s for s in GLOBAL_SLOTS if s[0] in ("linkage", "preempt", "vis", "dll", "tls", "uaddr", "partition")]
+
+
+def symbol_entries():
+    """aliases and ifuncs: every pair of their optional clauses"""
+    out = []
+    for label, sel in _pairs(SYM_SLOTS):
+        g = lambda s: _get(sel, s)
+        head = "%s%s%s%s%s%s" % (g("linkage"), g("preempt"), g("vis"), g("dll"), g("tls"), g("uaddr"))
+        out.append(("clause.alias." + label, "@g = global i32 0\n\n@a = %salias i32, i32* @g%s\n" % (head, g("partition")), _frags(sel)))
+        out.append(("clause.ifunc." + label, "@i = %sifunc void (), void ()* ()* @r%s\n\ndefine void ()* @r() {\n\tret void ()* null\n}\n" % (head, g("partition")), _frags(sel)))
     return out
 
 
@@ -165,4 +185,4 @@ def mem_entries():
 
 
 def all_entries():
-    return global_entries() + func_entries() + call_entries() + mem_entries()
+    return global_entries() + symbol_entries() + func_entries() + call_entries() + mem_entries()
